@@ -124,6 +124,10 @@ def run_history(case):
             d[b"nodes"] = [[b"n.example", 6881]]
             d[b"info"][b"x-info"] = b"kept"
             d[b"info"][b"aaa-first"] = 7
+            # a non-ASCII text key next to a key that is not valid UTF-8, in one dictionary (top level and info)
+            for dd in (d, d[b"info"]):
+                dd["\u0438\u0437\u0434\u0430\u0442\u0435\u043b\u044c".encode()] = b"publisher"
+                dd[b"\xe9diteur"] = b"latin-1 key"
             if b"private" not in d[b"info"] and case.get("foreign_private"):
                 d[b"info"][b"private"] = 0          # "not private", spelled out as other tools do
             fl = d[b"info"].get(b"files")
